@@ -1054,9 +1054,9 @@ def gallina_submit(obs):
                                          g_strs(obs["outs"]), g_ostr(obs["script"]), G.g_str(obs["script_real"] or ""))
 
 
-def run_submit_stream(ck, rng, hist):
+def run_submit_stream(ck, rng, hist, corpus=()):
     """Returns the number of cases; reports violations through ck."""
-    cases = gen_submit_cases(rng, ck.tier)
+    cases = [strip(c) for c in corpus] + gen_submit_cases(rng, ck.tier)
     scratch = os.path.join(common.WORK, "C10_submit_run")
     shutil.rmtree(scratch, ignore_errors=True)
     os.makedirs(scratch)
@@ -1261,7 +1261,8 @@ def run(ck):
     rng = random.Random(ck.seed)
     hist = {}
     t0 = time.time()
-    corpus = load_corpus()
+    corpus_all = load_corpus()
+    corpus = [c for c in corpus_all if c.get("kind") != "submit"]
     gen = generate(ck, rng, ck.tier, hist)
     cases = corpus + gen
     obss = run_cases(cases, "C10_run")
@@ -1303,7 +1304,7 @@ def run(ck):
     for i in bads[:5]:
         a, bs, r = sc[i]
         ck.mismatch("make_safe_path differs from the model", {"base": a, "args": bs, "result": r})
-    n_submit = run_submit_stream(ck, rng, hist)
+    n_submit = run_submit_stream(ck, rng, hist, [c for c in corpus_all if c.get("kind") == "submit"])
     for k in range(len(pc)):
         ck.count("p%d" % k, nontrivial=False)
     for k in range(len(sc)):
